@@ -135,3 +135,8 @@ def replay(ctx, path):
     _, v = check_file(ctx, None, ctx.nptdms(), data, True, stats)
     print("replay: %s" % ([x.what for x in v[:3]] or "property holds on this file"))
     return 1 if v else 0
+
+
+def corpus(ctx, entry):
+    stats = dict(windows=0, slices=0, indices=0, eager_windows=0)
+    return check_file(ctx, ctx.get_model() if ctx.build_ok else None, ctx.nptdms(), bytes.fromhex(entry["replay"]["file"]), True, stats)
